@@ -1653,6 +1653,14 @@ def gen_conc(seed, n, start_id=0):
             v = rng.choice(vs[:-1])
             nn = rng.choice([x for x in vs[:-1] if x >= v])
             lines.append("pinprune %d %d %s" % (v, nn, rng.choice(["export:pinned", "export:pinned", "export:before-pin", "prune:checked", "double-close"])))
+        if vs and h.base == vs[-1] and h.versions[vs[-1]] and rng.random() < 0.5:
+            # a reader's storage read of an index entry that is not cached overlaps the commit that removes or
+            # rewrites that key (fresh tree object: cold fast-node cache)
+            k = rng.choice(sorted(h.versions[vs[-1]]))
+            lines += ["close", "open"]
+            lines.append("getrace %s %s" % (enc(k), "-" if rng.random() < 0.6 else enc(bytes([rng.randrange(256)]))))
+            lines += ["get " + enc(k), "has " + enc(k), "gwi " + enc(k), "miterate", "getv %s %d" % (enc(k), vs[-1] + 1),
+                      "imm %d get %s" % (vs[-1] + 1, enc(k)), "imm %d get %s" % (vs[-1], enc(k))]
         out.append(("q%d" % (start_id + i), lines))
     return out
 
